@@ -1,182 +1,277 @@
-
 // ---- verif C09/C10: fiber switch steps on a bare Vm (appended to core.rs) -------------------------
-// Steps are driven the way the Invoke opcode drives them - `call_native(Fiber.call | Fiber.yield, argc)`
-// - so the specification is on what a program observes after the opcode (which stack slot holds which
-// value, which fiber runs, who its caller is), not on which helper pops which temporary.
-// Fibers live on leaked boxes (no collection involved); STACK_MAX is 16 in these groups.
+// The step under test is driven the way the Invoke opcode drives it - `call_native(Fiber.call |
+// Fiber.yield, argc)` / `return_impl` - so the specification is on what a program observes after the
+// opcode (which stack slot holds which value, which fiber runs, who its caller is), not on which helper
+// pops which temporary.
+//
+// Layout of every harness: control is concrete, data (every value handed over) is symbolic.
+//   * fibers, closures, functions and chunks live in `FiberStore` locals of the proof function (typed
+//     CBMC objects; a leaked Box costs 10x the SAT variables per access), STACK_MAX is 16;
+//   * pre-states that need earlier switches are produced by the REAL `Vm::load_fiber` / `unload_fiber`
+//     called directly (`setup_*`), plus the native-arity bookkeeping `call_native` wraps around them;
+//     each `setup_*` ends by asserting the same full-state predicate (`state_*`) that the one-step
+//     harness of that switch proves for the `call_native`-driven step, so the chain of harnesses is an
+//     induction over states described by those predicates.
 #[cfg(kani)]
 mod verif_c09 {
     use super::verif_core::*;
     use super::*;
-    use crate::object::ObjFiber;
+    use crate::memory::verif_mem::Placed;
+    use crate::object::{ObjClosure, ObjFiber};
     use crate::verif_stubs::*;
     use crate::vm::verif_vm::*;
     use std::cell::RefCell;
 
+    type Fib = Gc<RefCell<ObjFiber>>;
+
     fn num(v: Value, want: f64) -> bool {
         matches!(v, Value::Number(x) if x.to_bits() == want.to_bits())
     }
-    fn is_fiber(v: Value, f: Gc<RefCell<ObjFiber>>) -> bool {
+    fn is_fiber(v: Value, f: Fib) -> bool {
         matches!(v, Value::ObjFiber(g) if g == f)
     }
-    fn top(f: Gc<RefCell<ObjFiber>>, depth: usize) -> Value {
+    fn is_closure(v: Value, c: Gc<ObjClosure>) -> bool {
+        matches!(v, Value::ObjClosure(g) if g == c)
+    }
+    fn is_true(v: Value) -> bool {
+        matches!(v, Value::Boolean(true))
+    }
+    fn top(f: Fib, depth: usize) -> Value {
         *f.borrow().stack.peek(depth)
     }
-    fn len(f: Gc<RefCell<ObjFiber>>) -> usize {
+    fn len(f: Fib) -> usize {
         f.borrow().stack.len()
+    }
+    fn frame_ip(f: Fib) -> *const u8 {
+        f.borrow().frames[0].ip
     }
 
     /// Code buffers: ips are only saved/restored by the switch steps, never executed here.
     fn code() -> Vec<u8> {
         vec![0u8, 1, 2, 3, 4, 5, 6, 7]
     }
+    const IP_A: isize = 3; // where A is when it evaluates `b.call(..)`
+    const IP_B: isize = 5; // where B is when it evaluates `Fiber.yield(..)`
+    const LOCAL_A: f64 = 100.0;
 
     struct World {
         vm: Vm,
         a: FiberParts,
         b: FiberParts,
     }
+    fn ip_a(w: &World) -> *const u8 {
+        unsafe { w.a.chunk.code.as_ptr().offset(IP_A) }
+    }
+    fn ip_b(w: &World) -> *const u8 {
+        unsafe { w.b.chunk.code.as_ptr().offset(IP_B) }
+    }
 
-    /// A is the running fiber, mid-way through its code, with `extra` values above its closure slot.
+    /// A is the running fiber, mid-way through its code, with `extra` locals above its closure slot.
     /// B is a fresh fiber over a one-parameter function (arity 2 counts the closure slot).
-    fn world(extra: usize) -> World {
+    fn world(sa: &mut FiberStore, sb: &mut FiberStore, extra: usize) -> World {
         let mut vm = bare_vm();
-        let a = leaked_fiber(code(), 1);
-        let b = leaked_fiber(code(), 2);
+        let a = sa.init(code(), 1);
+        let b = sb.init(code(), 2);
         activate(&mut vm, &a);
         a.fiber.borrow_mut().stack.push(Value::ObjClosure(a.closure));
         let mut i = 0;
         while i < extra {
-            a.fiber.borrow_mut().stack.push(Value::Number(100.0 + i as f64));
+            a.fiber.borrow_mut().stack.push(Value::Number(LOCAL_A + i as f64));
             i += 1;
         }
-        let ip = unsafe { a.chunk.code.as_ptr().offset(3) };
-        vm_set_ip(&mut vm, ip);
-        World { vm, a, b }
+        let w = World { vm, a, b };
+        let ip = ip_a(&w);
+        let mut w = w;
+        vm_set_ip(&mut w.vm, ip);
+        w
     }
 
-    /// Drives B to a suspended state at a `Fiber.yield(v)`: A calls B with x, B yields v.
-    /// Afterwards A runs, its call slot holds v, B waits at its yield expression.
-    fn suspend_b(w: &mut World, x: f64, v: f64) {
+    // ---- full-state predicates (everything a later switch step reads) --------------------------------
+    /// A (one local) has called B with `x`; B runs from its first instruction.
+    fn state_a_called_b(w: &World, x: f64, b_ip: *const u8) -> bool {
+        let (a, b) = (w.a.fiber, w.b.fiber);
+        vm_fiber(&w.vm) == Some(b)
+            && vm_cache_coherent(&w.vm)
+            && vm_ip(&w.vm) == b_ip
+            && b.borrow().caller == Some(a)
+            && a.borrow().caller.is_none()
+            && a.borrow().frames.len() == 1
+            && b.borrow().frames.len() == 1
+            && frame_ip(a) == ip_a(w)
+            && len(a) == 3
+            && is_fiber(top(a, 0), b)
+            && num(top(a, 1), LOCAL_A)
+            && is_closure(top(a, 2), w.a.closure)
+            && len(b) == 2
+            && num(top(b, 0), x)
+            && is_closure(top(b, 1), w.b.closure)
+            && b.borrow().native_arity.is_none()
+            && b.borrow().exc_handlers.is_empty()
+            && a.borrow().exc_handlers.is_empty()
+    }
+    /// B has yielded: A runs again, its call slot holds `slot`; B waits at IP_B with its locals and the
+    /// slot of the yield expression (still holding the receiver of `Fiber.yield`).
+    fn state_b_suspended(w: &World, x: f64, slot_is: impl Fn(Value) -> bool) -> bool {
+        let (a, b) = (w.a.fiber, w.b.fiber);
+        vm_fiber(&w.vm) == Some(a)
+            && vm_cache_coherent(&w.vm)
+            && vm_ip(&w.vm) == ip_a(w)
+            && b.borrow().caller.is_none()
+            && a.borrow().caller.is_none()
+            && a.borrow().frames.len() == 1
+            && b.borrow().frames.len() == 1
+            && frame_ip(b) == ip_b(w)
+            && len(a) == 3
+            && slot_is(top(a, 0))
+            && num(top(a, 1), LOCAL_A)
+            && is_closure(top(a, 2), w.a.closure)
+            && len(b) == 3
+            && is_true(top(b, 0))
+            && num(top(b, 1), x)
+            && is_closure(top(b, 2), w.b.closure)
+            && a.borrow().native_arity.is_none()
+            && b.borrow().exc_handlers.is_empty()
+            && a.borrow().exc_handlers.is_empty()
+    }
+
+    // ---- set-up by the real switch functions, called directly ---------------------------------------
+    /// A evaluates `b.call(x)` for the new fiber B.
+    fn setup_call_b(w: &mut World, x: f64) {
         let (a, b) = (w.a.fiber, w.b.fiber);
         a.borrow_mut().stack.push(Value::ObjFiber(b));
         a.borrow_mut().stack.push(Value::Number(x));
-        let r = vm_call_native(&mut w.vm, fiber_call_native(), 1);
-        assert!(r.is_ok(), "first call succeeds");
-        // B runs: it evaluates `Fiber.yield(v)`: receiver (stands for the Fiber class) and the argument
-        let ip_b = unsafe { w.b.chunk.code.as_ptr().offset(5) };
-        vm_set_ip(&mut w.vm, ip_b);
-        b.borrow_mut().stack.push(Value::Boolean(true));
+        a.borrow_mut().set_native_arity(1);
+        let r = w.vm.load_fiber(b, Some(Value::Number(x)));
+        assert!(r.is_ok(), "set-up: first call succeeds");
+        b.borrow_mut().take_native_arity();
+        assert!(state_a_called_b(w, x, w.b.chunk.code.as_ptr()), "set-up state = state proved for the call step");
+    }
+    /// B (called with x) evaluates `Fiber.yield(v)`.
+    fn setup_yield_b(w: &mut World, x: f64, v: f64) {
+        let (a, b) = (w.a.fiber, w.b.fiber);
+        setup_call_b(w, x);
+        let ip = ip_b(w);
+        vm_set_ip(&mut w.vm, ip);
+        b.borrow_mut().stack.push(Value::Boolean(true)); // receiver of `Fiber.yield` (the Fiber class)
         b.borrow_mut().stack.push(Value::Number(v));
-        let r = vm_call_native(&mut w.vm, fiber_yield_native(), 1);
-        assert!(r.is_ok(), "yield succeeds");
+        b.borrow_mut().set_native_arity(1);
+        let r = w.vm.unload_fiber(Some(Value::Number(v)));
+        assert!(r.is_ok(), "set-up: yield succeeds");
+        a.borrow_mut().take_native_arity();
+        assert!(state_b_suspended(w, x, |s| num(s, v)), "set-up state = state proved for the yield step");
     }
 
-    /// Step 1: calling a new fiber with an argument. Symbolic: the argument, A's stack depth (0..=2 extra).
-    #[kani::proof]
-    #[kani::unwind(5)]
-    #[kani::stub(std::fmt::format, fmt_stub)]
-    #[kani::stub(crate::vm::Vm::new_root_obj_err_from_error, crate::vm::verif_vm::err_instance_stub)]
-    #[kani::stub(crate::vm::Vm::new_error_from_value, crate::vm::verif_vm::error_from_value_stub)]
-    fn c09_call_new_fiber_passes_argument() {
-        let extra: usize = kani::any();
-        kani::assume(extra <= 2);
-        let mut w = world(extra);
+    macro_rules! c09_proof {
+        ($name:ident, $body:block) => {
+            #[kani::proof]
+            #[kani::unwind(5)]
+            #[kani::stub(std::fmt::format, fmt_stub)]
+            #[kani::stub(crate::vm::Vm::new_root_obj_err_from_error, crate::vm::verif_vm::err_instance_stub)]
+            #[kani::stub(crate::vm::Vm::new_error_from_value, crate::vm::verif_vm::error_from_value_stub)]
+            fn $name() $body
+        };
+    }
+
+    // ---- step 1: calling a new fiber with an argument -------------------------------------------------
+    fn call_new_fiber_case(extra: usize) {
+        let mut sa = FiberStore::empty();
+        let mut sb = FiberStore::empty();
+        let mut nat = Placed::new(ObjNative::new(Gc::dangling(), fiber_call as NativeFn, true));
+        let mut w = world(&mut sa, &mut sb, extra);
         let (a, b) = (w.a.fiber, w.b.fiber);
         let x: f64 = kani::any();
         let ip_before = vm_ip(&w.vm);
         let depth_before = len(a);
         a.borrow_mut().stack.push(Value::ObjFiber(b));
         a.borrow_mut().stack.push(Value::Number(x));
-        let r = vm_call_native(&mut w.vm, fiber_call_native(), 1);
-        kani::cover!(r.is_ok() && extra == 2, "reach");
+        let r = vm_call_native(&mut w.vm, nat.gc(), 1);
+        kani::cover!(r.is_ok(), "reach");
         assert!(r.is_ok(), "calling a new fiber with the right argument count succeeds");
         assert!(vm_fiber(&w.vm) == Some(b), "the called fiber runs");
         assert!(b.borrow().caller == Some(a), "the caller is recorded");
         assert!(a.borrow().caller.is_none(), "the caller's own caller is untouched");
         assert!(len(b) == 2, "callee starts with its closure and its parameter");
         assert!(num(top(b, 0), x), "the call argument becomes the parameter");
-        assert!(matches!(top(b, 1), Value::ObjClosure(c) if c == w.b.closure), "slot 0 holds the callee's closure");
+        assert!(is_closure(top(b, 1), w.b.closure), "slot 0 holds the callee's closure");
         assert!(len(a) == depth_before + 1, "the caller keeps exactly the slot of the call expression");
         assert!(is_fiber(top(a, 0), b), "that slot still holds the receiver until the callee yields");
-        assert!(a.borrow().frames[0].ip == ip_before, "the caller's resume point is saved");
+        assert!(frame_ip(a) == ip_before, "the caller's resume point is saved");
         assert!(vm_ip(&w.vm) == w.b.chunk.code.as_ptr(), "execution starts at the callee's first instruction");
         assert!(vm_cache_coherent(&w.vm), "cached fiber pointer, ip and chunk denote the running fiber");
+        if extra == 1 {
+            assert!(state_a_called_b(&w, x, w.b.chunk.code.as_ptr()), "full state after the call step");
+        }
+        std::mem::forget(r);
         std::mem::forget(w);
     }
+    c09_proof!(c09_call_new_fiber_passes_argument_depth0, { call_new_fiber_case(0) });
+    c09_proof!(c09_call_new_fiber_passes_argument_depth1, { call_new_fiber_case(1) });
+    c09_proof!(c09_call_new_fiber_passes_argument_depth2, { call_new_fiber_case(2) });
 
-    /// Step 2: yield with / without a value. The caller's call expression evaluates to the value / nil.
-    #[kani::proof]
-    #[kani::unwind(5)]
-    #[kani::stub(std::fmt::format, fmt_stub)]
-    #[kani::stub(crate::vm::Vm::new_root_obj_err_from_error, crate::vm::verif_vm::err_instance_stub)]
-    #[kani::stub(crate::vm::Vm::new_error_from_value, crate::vm::verif_vm::error_from_value_stub)]
-    fn c09_yield_returns_value_to_caller() {
-        let mut w = world(1);
+    // ---- step 2: yield with / without a value -----------------------------------------------------------
+    fn yield_case(with_value: bool) {
+        let mut sa = FiberStore::empty();
+        let mut sb = FiberStore::empty();
+        let mut nat = Placed::new(ObjNative::new(Gc::dangling(), fiber_yield as NativeFn, true));
+        let mut w = world(&mut sa, &mut sb, 1);
         let (a, b) = (w.a.fiber, w.b.fiber);
         let x: f64 = kani::any();
         let v: f64 = kani::any();
-        let with_value: bool = kani::any();
-        let depth_a = len(a);
-        a.borrow_mut().stack.push(Value::ObjFiber(b));
-        a.borrow_mut().stack.push(Value::Number(x));
-        let ip_a = vm_ip(&w.vm);
-        assert!(vm_call_native(&mut w.vm, fiber_call_native(), 1).is_ok(), "call");
-        let ip_b = unsafe { w.b.chunk.code.as_ptr().offset(5) };
-        vm_set_ip(&mut w.vm, ip_b);
+        setup_call_b(&mut w, x);
+        let ip = ip_b(&w);
+        vm_set_ip(&mut w.vm, ip);
         b.borrow_mut().stack.push(Value::Boolean(true)); // receiver of `Fiber.yield`
         let r = if with_value {
             b.borrow_mut().stack.push(Value::Number(v));
-            vm_call_native(&mut w.vm, fiber_yield_native(), 1)
+            vm_call_native(&mut w.vm, nat.gc(), 1)
         } else {
-            vm_call_native(&mut w.vm, fiber_yield_native(), 0)
+            vm_call_native(&mut w.vm, nat.gc(), 0)
         };
-        kani::cover!(r.is_ok() && with_value, "reach-with-value");
-        kani::cover!(r.is_ok() && !with_value, "reach-without-value");
+        kani::cover!(r.is_ok(), "reach");
         assert!(r.is_ok(), "yield inside a called fiber succeeds");
         assert!(vm_fiber(&w.vm) == Some(a), "the caller runs again");
         assert!(b.borrow().caller.is_none(), "the yielding fiber is detached from its caller");
-        assert!(len(a) == depth_a + 1, "the call expression occupies one slot");
+        assert!(len(a) == 3, "the call expression occupies one slot");
         if with_value {
             assert!(num(top(a, 0), v), "call evaluates to the yielded value");
+            assert!(state_b_suspended(&w, x, |s| num(s, v)), "full state after the yield step");
         } else {
             assert!(matches!(top(a, 0), Value::None), "call evaluates to nil when nothing is yielded");
+            assert!(state_b_suspended(&w, x, |s| matches!(s, Value::None)), "full state after the yield step");
         }
         assert!(len(b) == 3, "the suspended fiber keeps its locals and the slot of the yield expression");
         assert!(num(top(b, 1), x), "the suspended fiber's parameter is intact");
-        assert!(b.borrow().frames[0].ip == ip_b, "the suspended fiber's resume point is saved");
-        assert!(vm_ip(&w.vm) == ip_a, "the caller resumes where it called");
+        assert!(frame_ip(b) == ip, "the suspended fiber's resume point is saved");
+        assert!(vm_ip(&w.vm) == ip_a(&w), "the caller resumes where it called");
         assert!(vm_cache_coherent(&w.vm), "cached fiber pointer, ip and chunk denote the running fiber");
+        std::mem::forget(r);
         std::mem::forget(w);
     }
+    c09_proof!(c09_yield_returns_value_to_caller_with_value, { yield_case(true) });
+    c09_proof!(c09_yield_returns_value_to_caller_without_value, { yield_case(false) });
 
-    /// Step 3: resuming a suspended fiber with / without an argument: the pending yield expression
-    /// evaluates to the argument / nil.
-    #[kani::proof]
-    #[kani::unwind(5)]
-    #[kani::stub(std::fmt::format, fmt_stub)]
-    #[kani::stub(crate::vm::Vm::new_root_obj_err_from_error, crate::vm::verif_vm::err_instance_stub)]
-    #[kani::stub(crate::vm::Vm::new_error_from_value, crate::vm::verif_vm::error_from_value_stub)]
-    fn c09_resume_passes_value_to_yield() {
-        let mut w = world(1);
+    // ---- step 3: resuming a suspended fiber with / without an argument ------------------------------------
+    fn resume_case(with_arg: bool) {
+        let mut sa = FiberStore::empty();
+        let mut sb = FiberStore::empty();
+        let mut nat = Placed::new(ObjNative::new(Gc::dangling(), fiber_call as NativeFn, true));
+        let mut w = world(&mut sa, &mut sb, 1);
         let (a, b) = (w.a.fiber, w.b.fiber);
         let x: f64 = kani::any();
         let v: f64 = kani::any();
         let arg: f64 = kani::any();
-        let with_arg: bool = kani::any();
-        suspend_b(&mut w, x, v);
+        setup_yield_b(&mut w, x, v);
         // A: the yielded value is consumed, then `b.call(arg)` / `b.call()`
         a.borrow_mut().stack.pop();
         let depth_a = len(a);
         a.borrow_mut().stack.push(Value::ObjFiber(b));
         let r = if with_arg {
             a.borrow_mut().stack.push(Value::Number(arg));
-            vm_call_native(&mut w.vm, fiber_call_native(), 1)
+            vm_call_native(&mut w.vm, nat.gc(), 1)
         } else {
-            vm_call_native(&mut w.vm, fiber_call_native(), 0)
+            vm_call_native(&mut w.vm, nat.gc(), 0)
         };
-        kani::cover!(r.is_ok() && with_arg, "reach-with-argument");
-        kani::cover!(r.is_ok() && !with_arg, "reach-without-argument");
+        kani::cover!(r.is_ok(), "reach");
         assert!(r.is_ok(), "resuming a suspended fiber succeeds");
         assert!(vm_fiber(&w.vm) == Some(b), "the resumed fiber runs");
         assert!(b.borrow().caller == Some(a), "the caller is recorded again");
@@ -188,28 +283,23 @@ mod verif_c09 {
         }
         assert!(num(top(b, 1), x), "the resumed fiber's locals are intact");
         assert!(len(a) == depth_a + 1 && is_fiber(top(a, 0), b), "the caller keeps the slot of its call expression");
-        assert!(vm_ip(&w.vm) == unsafe { w.b.chunk.code.as_ptr().offset(5) }, "the fiber resumes after its yield");
+        assert!(vm_ip(&w.vm) == ip_b(&w), "the fiber resumes after its yield");
         assert!(vm_cache_coherent(&w.vm), "cached fiber pointer, ip and chunk denote the running fiber");
+        std::mem::forget(r);
         std::mem::forget(w);
     }
+    c09_proof!(c09_resume_passes_value_to_yield_with_arg, { resume_case(true) });
+    c09_proof!(c09_resume_passes_value_to_yield_without_arg, { resume_case(false) });
 
-    /// Step 4: a fiber's body returns: the caller's call expression evaluates to the return value and the
-    /// fiber is finished.
-    #[kani::proof]
-    #[kani::unwind(5)]
-    #[kani::stub(std::fmt::format, fmt_stub)]
-    #[kani::stub(crate::vm::Vm::new_root_obj_err_from_error, crate::vm::verif_vm::err_instance_stub)]
-    #[kani::stub(crate::vm::Vm::new_error_from_value, crate::vm::verif_vm::error_from_value_stub)]
-    fn c09_return_finishes_fiber() {
-        let mut w = world(1);
+    // ---- step 4: a fiber's body returns ---------------------------------------------------------------------
+    c09_proof!(c09_return_finishes_fiber, {
+        let mut sa = FiberStore::empty();
+        let mut sb = FiberStore::empty();
+        let mut w = world(&mut sa, &mut sb, 1);
         let (a, b) = (w.a.fiber, w.b.fiber);
         let x: f64 = kani::any();
         let ret: f64 = kani::any();
-        let depth_a = len(a);
-        let ip_a = vm_ip(&w.vm);
-        a.borrow_mut().stack.push(Value::ObjFiber(b));
-        a.borrow_mut().stack.push(Value::Number(x));
-        assert!(vm_call_native(&mut w.vm, fiber_call_native(), 1).is_ok(), "call");
+        setup_call_b(&mut w, x);
         b.borrow_mut().stack.push(Value::Number(ret));
         let r = vm_return_impl(&mut w.vm);
         kani::cover!(r.is_ok(), "reach");
@@ -217,42 +307,74 @@ mod verif_c09 {
         assert!(vm_fiber(&w.vm) == Some(a), "the caller runs again");
         assert!(b.borrow().has_finished(), "the fiber is finished");
         assert!(b.borrow().caller.is_none(), "the finished fiber is detached");
-        assert!(len(a) == depth_a + 1 && num(top(a, 0), ret), "call evaluates to the body's return value");
-        assert!(vm_ip(&w.vm) == ip_a, "the caller resumes where it called");
+        assert!(len(a) == 3 && num(top(a, 0), ret), "call evaluates to the body's return value");
+        assert!(num(top(a, 1), LOCAL_A), "the caller's locals are intact");
+        assert!(vm_ip(&w.vm) == ip_a(&w), "the caller resumes where it called");
         assert!(vm_cache_coherent(&w.vm), "cached fiber pointer, ip and chunk denote the running fiber");
-        // and a finished fiber cannot be called again; the attempt changes nothing
-        a.borrow_mut().stack.pop();
+        std::mem::forget(r);
+        std::mem::forget(w);
+    });
+
+    // ---- step 5: rejected calls leave every fiber's links, frames and the running fiber untouched ------------
+    /// (a) a finished fiber cannot be called again.
+    c09_proof!(c09_finished_fiber_cannot_be_called, {
+        let mut sa = FiberStore::empty();
+        let mut sb = FiberStore::empty();
+        let mut w = world(&mut sa, &mut sb, 1);
+        let (a, b) = (w.a.fiber, w.b.fiber);
+        // B has run to completion: no frames, no caller (the state c09_return_finishes_fiber proves)
+        b.borrow_mut().frames.pop();
+        let with_arg: bool = kani::any();
         a.borrow_mut().stack.push(Value::ObjFiber(b));
-        let r2 = call_fiber_call(&mut w.vm, 0);
-        assert!(r2.is_err(), "calling a finished fiber is an error");
+        let r = if with_arg {
+            a.borrow_mut().stack.push(Value::Number(1.0));
+            call_fiber_call(&mut w.vm, 1)
+        } else {
+            call_fiber_call(&mut w.vm, 0)
+        };
+        kani::cover!(r.is_err(), "reach");
+        assert!(r.is_err(), "calling a finished fiber is an error");
         assert!(vm_fiber(&w.vm) == Some(a) && b.borrow().caller.is_none() && a.borrow().caller.is_none(), "failed call leaves the fibers untouched");
+        assert!(b.borrow().has_finished() && a.borrow().frames.len() == 1, "frames intact");
+        assert!(vm_cache_coherent(&w.vm), "cached state coherent");
+        std::mem::forget(r);
+        std::mem::forget(w);
+    });
+
+    /// (c) a new fiber called with the wrong number of arguments.
+    fn new_fiber_wrong_argc_case(argc: usize) {
+        let mut sa = FiberStore::empty();
+        let mut sb = FiberStore::empty();
+        let mut w = world(&mut sa, &mut sb, 1);
+        let (a, b) = (w.a.fiber, w.b.fiber);
+        a.borrow_mut().stack.push(Value::ObjFiber(b));
+        let mut i = 0;
+        while i < argc {
+            a.borrow_mut().stack.push(Value::Number(1.0));
+            i += 1;
+        }
+        let r = call_fiber_call(&mut w.vm, argc);
+        kani::cover!(r.is_err(), "reach");
+        assert!(r.is_err(), "a one-parameter fiber called with 0 or 2 arguments is an error");
+        assert!(vm_fiber(&w.vm) == Some(a) && b.borrow().caller.is_none() && b.borrow().is_new(), "failed call leaves the callee new and unlinked");
+        assert!(a.borrow().caller.is_none() && a.borrow().frames.len() == 1, "caller intact");
+        assert!(len(b) == 0, "nothing was pushed onto the callee");
+        assert!(vm_cache_coherent(&w.vm), "cached state coherent");
+        std::mem::forget(r);
         std::mem::forget(w);
     }
+    c09_proof!(c09_new_fiber_wrong_argc_0, { new_fiber_wrong_argc_case(0) });
+    c09_proof!(c09_new_fiber_wrong_argc_2, { new_fiber_wrong_argc_case(2) });
 
-    /// Step 5(c): wrong argument counts through the natives leave every fiber's links, frames and the
-    /// running fiber untouched.
-    #[kani::proof]
-    #[kani::unwind(5)]
-    #[kani::stub(std::fmt::format, fmt_stub)]
-    #[kani::stub(crate::vm::Vm::new_root_obj_err_from_error, crate::vm::verif_vm::err_instance_stub)]
-    #[kani::stub(crate::vm::Vm::new_error_from_value, crate::vm::verif_vm::error_from_value_stub)]
-    fn c09_errors_leave_state_untouched() {
-        let mut w = world(1);
+    /// (c') resuming a suspended fiber with two arguments.
+    c09_proof!(c09_resume_with_two_args_rejected, {
+        let mut sa = FiberStore::empty();
+        let mut sb = FiberStore::empty();
+        let mut w = world(&mut sa, &mut sb, 1);
         let (a, b) = (w.a.fiber, w.b.fiber);
         let x: f64 = kani::any();
-        // (c) new fiber called with the wrong number of arguments
-        a.borrow_mut().stack.push(Value::ObjFiber(b));
-        let r = call_fiber_call(&mut w.vm, 0);
-        assert!(r.is_err(), "missing argument is an error");
-        assert!(vm_fiber(&w.vm) == Some(a) && b.borrow().caller.is_none() && b.borrow().is_new(), "failed call leaves the callee new and unlinked");
-        // now really call it: A -> B
-        a.borrow_mut().stack.push(Value::Number(x));
-        assert!(vm_call_native(&mut w.vm, fiber_call_native(), 1).is_ok(), "call");
-        // resuming with too many arguments is rejected as well
-        let ip_b = unsafe { w.b.chunk.code.as_ptr().offset(5) };
-        vm_set_ip(&mut w.vm, ip_b);
-        b.borrow_mut().stack.push(Value::Boolean(true));
-        assert!(vm_call_native(&mut w.vm, fiber_yield_native(), 0).is_ok(), "yield");
+        let v: f64 = kani::any();
+        setup_yield_b(&mut w, x, v);
         a.borrow_mut().stack.pop();
         a.borrow_mut().stack.push(Value::ObjFiber(b));
         a.borrow_mut().stack.push(Value::Number(1.0));
@@ -261,32 +383,27 @@ mod verif_c09 {
         kani::cover!(r.is_err(), "reach");
         assert!(r.is_err(), "resuming with two arguments is an error");
         assert!(vm_fiber(&w.vm) == Some(a) && b.borrow().caller.is_none() && b.borrow().frames.len() == 1, "failed resume leaves the fibers untouched");
+        assert!(len(b) == 3 && num(top(b, 1), x), "the suspended fiber's stack is untouched");
         assert!(vm_cache_coherent(&w.vm), "cached state coherent");
+        std::mem::forget(r);
         std::mem::forget(w);
-    }
+    });
 
-    /// Step 5(a) proper: the target HAS a caller (it is running or waiting on a callee): always rejected.
-    #[kani::proof]
-    #[kani::unwind(5)]
-    #[kani::stub(std::fmt::format, fmt_stub)]
-    #[kani::stub(crate::vm::Vm::new_root_obj_err_from_error, crate::vm::verif_vm::err_instance_stub)]
-    #[kani::stub(crate::vm::Vm::new_error_from_value, crate::vm::verif_vm::error_from_value_stub)]
-    fn c09_reentrant_call_rejected_and_harmless() {
-        let mut w = world(1);
+    /// (a') the target HAS a caller (it is running, or waiting on a callee): always rejected.
+    /// Chain A -> B -> C built by the real load_fiber; C calls itself or the waiting ancestor B.
+    fn reentrant_case(target_is_self: bool, with_arg: bool) {
+        let mut sa = FiberStore::empty();
+        let mut sb = FiberStore::empty();
+        let mut sc = FiberStore::empty();
+        let mut w = world(&mut sa, &mut sb, 1);
         let (a, b) = (w.a.fiber, w.b.fiber);
-        let c = leaked_fiber(code(), 2);
+        let c = sc.init(code(), 2);
         let x: f64 = kani::any();
-        // A -> B
-        a.borrow_mut().stack.push(Value::ObjFiber(b));
-        a.borrow_mut().stack.push(Value::Number(x));
-        assert!(vm_call_native(&mut w.vm, fiber_call_native(), 1).is_ok(), "call A->B");
+        setup_call_b(&mut w, x);
         // B -> C
         b.borrow_mut().stack.push(Value::ObjFiber(c.fiber));
         b.borrow_mut().stack.push(Value::Number(x));
-        assert!(vm_call_native(&mut w.vm, fiber_call_native(), 1).is_ok(), "call B->C");
-        // C calls B (waiting on C, caller = A) or itself (running, caller = B): rejected
-        let target_is_self: bool = kani::any();
-        let with_arg: bool = kani::any();
+        assert!(w.vm.load_fiber(c.fiber, Some(Value::Number(x))).is_ok(), "set-up: B calls C");
         let target = if target_is_self { c.fiber } else { b };
         let depth_c = len(c.fiber);
         c.fiber.borrow_mut().stack.push(Value::ObjFiber(target));
@@ -296,8 +413,7 @@ mod verif_c09 {
         } else {
             call_fiber_call(&mut w.vm, 0)
         };
-        kani::cover!(target_is_self, "reach-self");
-        kani::cover!(!target_is_self, "reach-ancestor");
+        kani::cover!(r.is_err(), "reach");
         assert!(r.is_err(), "calling a fiber that is already running or waiting is an error");
         assert!(vm_fiber(&w.vm) == Some(c.fiber), "the running fiber keeps running");
         assert!(c.fiber.borrow().caller == Some(b), "running fiber's caller intact");
@@ -305,52 +421,48 @@ mod verif_c09 {
         assert!(a.borrow().caller.is_none(), "root fiber's caller intact");
         assert!(b.borrow().frames.len() == 1 && c.fiber.borrow().frames.len() == 1, "frames intact");
         assert!(len(c.fiber) >= depth_c, "the running fiber's locals are not popped");
+        assert!(len(b) == 3 && len(a) == 3, "the waiting fibers' stacks are untouched");
         assert!(vm_cache_coherent(&w.vm), "cached state coherent");
+        std::mem::forget(r);
         std::mem::forget(w);
     }
+    c09_proof!(c09_reentrant_call_rejected_self_with_arg, { reentrant_case(true, true) });
+    c09_proof!(c09_reentrant_call_rejected_self_without_arg, { reentrant_case(true, false) });
+    c09_proof!(c09_reentrant_call_rejected_ancestor_with_arg, { reentrant_case(false, true) });
+    c09_proof!(c09_reentrant_call_rejected_ancestor_without_arg, { reentrant_case(false, false) });
 
-    /// Step 5(b): yield with no caller (module-level code): an error, nothing switches.
-    #[kani::proof]
-    #[kani::unwind(5)]
-    #[kani::stub(std::fmt::format, fmt_stub)]
-    #[kani::stub(crate::vm::Vm::new_root_obj_err_from_error, crate::vm::verif_vm::err_instance_stub)]
-    #[kani::stub(crate::vm::Vm::new_error_from_value, crate::vm::verif_vm::error_from_value_stub)]
-    fn c09_yield_without_caller_is_error() {
-        let mut w = world(1);
+    /// (b) yield with no caller (module-level code): an error, nothing switches.
+    fn yield_without_caller_case(argc: usize) {
+        let mut sa = FiberStore::empty();
+        let mut sb = FiberStore::empty();
+        let mut w = world(&mut sa, &mut sb, 1);
         let a = w.a.fiber;
-        let with_value: bool = kani::any();
         a.borrow_mut().stack.push(Value::Boolean(true));
-        let r = if with_value {
+        let mut i = 0;
+        while i < argc {
             a.borrow_mut().stack.push(Value::Number(3.0));
-            call_fiber_yield(&mut w.vm, 1)
-        } else {
-            call_fiber_yield(&mut w.vm, 0)
-        };
-        kani::cover!(with_value, "reach");
-        assert!(r.is_err(), "yield outside any called fiber is an error");
+            i += 1;
+        }
+        let r = call_fiber_yield(&mut w.vm, argc);
+        kani::cover!(r.is_err(), "reach");
+        assert!(r.is_err(), "yield outside any called fiber (or with two arguments) is an error");
         assert!(vm_fiber(&w.vm) == Some(a), "the running fiber keeps running");
         assert!(a.borrow().caller.is_none() && a.borrow().frames.len() == 1, "links and frames intact");
         assert!(vm_cache_coherent(&w.vm), "cached state coherent");
-        // too many arguments
-        a.borrow_mut().stack.push(Value::Number(1.0));
-        a.borrow_mut().stack.push(Value::Number(2.0));
-        assert!(call_fiber_yield(&mut w.vm, 2).is_err(), "yield takes at most one argument");
+        std::mem::forget(r);
         std::mem::forget(w);
     }
+    c09_proof!(c09_yield_without_caller_is_error_with_value, { yield_without_caller_case(1) });
+    c09_proof!(c09_yield_without_caller_is_error_without_value, { yield_without_caller_case(0) });
+    c09_proof!(c09_yield_with_two_values_is_error, { yield_without_caller_case(2) });
 
     /// Twin: must FAIL.
-    #[kani::proof]
-    #[kani::unwind(5)]
-    #[kani::stub(std::fmt::format, fmt_stub)]
-    #[kani::stub(crate::vm::Vm::new_root_obj_err_from_error, crate::vm::verif_vm::err_instance_stub)]
-    #[kani::stub(crate::vm::Vm::new_error_from_value, crate::vm::verif_vm::error_from_value_stub)]
-    fn c09_twin_must_fail() {
-        let mut w = world(1);
-        let (a, b) = (w.a.fiber, w.b.fiber);
+    c09_proof!(c09_twin_must_fail, {
+        let mut sa = FiberStore::empty();
+        let mut sb = FiberStore::empty();
+        let mut w = world(&mut sa, &mut sb, 1);
         let x: f64 = kani::any();
-        a.borrow_mut().stack.push(Value::ObjFiber(b));
-        a.borrow_mut().stack.push(Value::Number(x));
-        let _ = vm_call_native(&mut w.vm, fiber_call_native(), 1);
+        setup_call_b(&mut w, x);
         assert!(false, "twin");
-    }
+    });
 }
